@@ -119,7 +119,8 @@ class C04(Check):
                            "at": t})
             t += rng.choice([0.0, 0.001, 0.01, 0.1, 1.2])
         if sweep:
-            bursts = [{"msgs": list(range(n)), "style": "sweep", "pos": rng.getrandbits(30),
+            bursts = [{"msgs": list(range(n)), "style": "sweep",
+                       "pos": (index // 8) if tier == "thorough" else rng.getrandbits(30),
                        "pos2": rng.getrandbits(30) if rng.random() < 0.5 else None,
                        "gap": rng.choice([0.0005, 0.01, 0.3]), "at": 0.0}]
         mode = rng.choice(["CLIENT", "SERVER"])
@@ -354,7 +355,7 @@ class C04(Check):
                                              "segments_with_coalesced_messages": stats["coalesced"],
                                              "segments": stats["segments"],
                                              "preemption_in_bromelia_code": sim.preempt_line + sim.preempt_opcode},
-                                  "abstract_states": []})
+                                  "abstract_states": sorted(w.abstract_states)})
 
 
 def _short(k):
